@@ -69,6 +69,8 @@ type vals struct {
 	M  map[string]int
 	I  interface{}
 	PP **inner
+	B1 box
+	B2 box
 }
 
 var prioGroups = [][]string{{"||"}, {"&&"}, {"==", "!="}, {"<", "<=", ">", ">="}, {"+", "-"}, {"*", "/", "%"}}
@@ -316,6 +318,10 @@ func (n *node) eval(v *vals, st *evalState) interface{} {
 
 type inner struct{ Y int }
 
+// box is comparable as a type, but comparing two of them panics when the interface holds a
+// slice (what a JSON array binds to)
+type box struct{ V interface{} }
+
 // tagQuote writes the expression the way it stands between the double quotes of a struct
 // tag (a Go string literal: backslashes doubled)
 func tagQuote(expr string) string {
@@ -334,6 +340,8 @@ func buildType(expr string) reflect.Type {
 		{Name: "M", Type: reflect.TypeOf(map[string]int{})},
 		{Name: "I", Type: reflect.TypeOf((*interface{})(nil)).Elem()},
 		{Name: "PP", Type: reflect.TypeOf((**inner)(nil))},
+		{Name: "B1", Type: reflect.TypeOf(box{})},
+		{Name: "B2", Type: reflect.TypeOf(box{})},
 	})
 }
 
@@ -360,6 +368,8 @@ func setVals(v reflect.Value, x *vals) {
 	if x.PP != nil {
 		v.Elem().Field(9).Set(reflect.ValueOf(x.PP))
 	}
+	v.Elem().Field(10).Set(reflect.ValueOf(x.B1))
+	v.Elem().Field(11).Set(reflect.ValueOf(x.B2))
 }
 
 func genVals(r *mon.Rand) *vals {
@@ -521,6 +531,14 @@ func work(w *mon.W) {
 		case 4:
 			x.I = []string{}
 		}
+		switch r.Intn(4) {
+		case 0:
+			x.B1, x.B2 = box{[]interface{}{1.0}}, box{[]interface{}{1.0}}
+		case 1:
+			x.B1, x.B2 = box{map[string]interface{}{"a": 1.0}}, box{3}
+		case 2:
+			x.B1, x.B2 = box{"s"}, box{"s"}
+		}
 		switch r.Intn(3) {
 		case 0:
 			var in *inner
@@ -567,7 +585,8 @@ func hostileBool(r *mon.Rand, d int) string {
 			"(L)$==(L2)$", "(L)$!=(L2)$", "(L)$==(L)$", "in((L)$,(L2)$)", "(M)$==(M)$", "(M)$!=(M)$", "in((M)$,(M)$,1)",
 			"(L)$[(A)$]==1", "(S)$[(A)$]=='a'", "(L)$[len((L)$)-1]>0", "(L)$[-1]==nil",
 			"(I)$", "!(I)$", "(I)$==(I)$", "(L)$", "!(M)$", "(I)$==(L)$",
-			"(PP.Y)$==nil", "(PP.Y)$>=0", "!(PP.Y)$")
+			"(PP.Y)$==nil", "(PP.Y)$>=0", "!(PP.Y)$",
+			"(B1)$==(B2)$", "(B1)$!=(B2)$", "in((B1)$,(B2)$,(B1)$)", "(B1.V)$==(B2.V)$")
 	}
 	switch r.Intn(4) {
 	case 0:
